@@ -12,3 +12,6 @@ import LyModel.Props.C14
 #print axioms LyModel.Props.C14.dup_equal_with_flags
 #print axioms LyModel.Props.C14.dup_no_meta
 #print axioms LyModel.Props.C14.dup_shallow
+#print axioms LyModel.Props.C14.dup_siblings_equal
+#print axioms LyModel.Props.C14.dup_siblings_full
+#print axioms LyModel.Props.C14.merge_into_empty_eq_dup
